@@ -459,8 +459,13 @@ func blockHistorySweep(idx, n int) {
 			}
 		}
 		for _, kind := range []string{"half", "full"} {
-			for _, box := range [][2]int{{2, 1}, {1, 1}, {2, 2}, {3, 1}} {
+			for bi, box := range [][2]int{{2, 1}, {1, 1}, {2, 2}, {3, 1}, {4, 2}, {6, 6}} {
 				r.Count("block_cases", 1)
+				// the earlier box: the full one (nothing scaled), or a small one (the image was scaled down before)
+				first := [][2]int{{6, 6}, {1, 1}, {2, 1}, {1, 2}}[(bi+code)%4]
+				if first == box {
+					first = [2]int{6, 6}
+				}
 				draw := func(history bool) [][]refterm.Cell {
 					win := s.Vx.Window()
 					win.Fill(vaxis.Cell{Character: vaxis.Character{Grapheme: "·", Width: 1}})
@@ -471,7 +476,7 @@ func blockHistorySweep(idx, n int) {
 						im = s.Vx.NewFullBlockImage(img)
 					}
 					if history {
-						im.Resize(6, 6)
+						im.Resize(first[0], first[1])
 					}
 					im.Resize(box[0], box[1])
 					im.Draw(win.New(1, 1, 4, 4))
@@ -490,7 +495,7 @@ func blockHistorySweep(idx, n int) {
 				for y := range fresh {
 					for x := range fresh[y] {
 						if bad == "" && (fresh[y][x].Text != again[y][x].Text || fresh[y][x].Style != again[y][x].Style) {
-							bad = fmt.Sprintf("cell %d,%d: an image resized to 6x6 and then to %dx%d shows %q %+v, a fresh image resized to %dx%d shows %q %+v", x, y, box[0], box[1],
+							bad = fmt.Sprintf("cell %d,%d: an image resized to %dx%d and then to %dx%d shows %q %+v, a fresh image resized to %dx%d shows %q %+v", x, y, first[0], first[1], box[0], box[1],
 								again[y][x].Text, again[y][x].Style, box[0], box[1], fresh[y][x].Text, fresh[y][x].Style)
 						}
 					}
@@ -820,7 +825,7 @@ func main() {
 	n := r.Get("resize_cases") + r.Get("block_cases") + r.Get("contain_cases") + trans
 	r.Finish(explore.Coverage{
 		States: -1, Transitions: n, Traces: n, Evaluations: n,
-		Rule:        "Resize: every image size 1..12 x 1..12 px (scaled with the cell geometry) x every box 0..7 x 0..7 for half-block and full-block (cell 1x2) and for kitty and sixel under cell geometries 1x1, 2x2, 2x3 (images up to 24x24 px), 8x16, 10x20 (pixel sizes learnt through the in-band resize report): box, no-upscale and aspect-within-one-cell. Block rendering: every assignment of a 7-value pixel alphabet (opaque, alpha 0/49/50/128, premultiplied half alpha) to images of 1x1..2x3 pixels, drawn and rendered, cell colours read from the reference terminal. Containment: kitty, sixel and half-block images of 1..4 x 1..3 cells into 5 windows. Placement histories: BFS to depth n over 14 frames {A absent / at two positions} x {B} x {Render, Refresh} + resize A, for kitty and sixel; the graphics commands of the last frame are compared with what the placement diff requires. distinct = cases/states that passed; block resize history: every 4x4 px image of four quadrants over the pixel alphabet, resized to 6x6 and then to each of four smaller boxes, must draw exactly what a fresh image resized once draws; in every other resize case the image object has been resized to the largest box before; geometry change: the terminal's cell pixel size changes while the program runs (4 changes, kitty and sixel): images resized before the change and new ones fit 4 boxes under the new geometry",
+		Rule:        "Resize: every image size 1..12 x 1..12 px (scaled with the cell geometry) x every box 0..7 x 0..7 for half-block and full-block (cell 1x2) and for kitty and sixel under cell geometries 1x1, 2x2, 2x3 (images up to 24x24 px), 8x16, 10x20 (pixel sizes learnt through the in-band resize report): box, no-upscale and aspect-within-one-cell. Block rendering: every assignment of a 7-value pixel alphabet (opaque, alpha 0/49/50/128, premultiplied half alpha) to images of 1x1..2x3 pixels, drawn and rendered, cell colours read from the reference terminal. Containment: kitty, sixel and half-block images of 1..4 x 1..3 cells into 5 windows. Placement histories: BFS to depth n over 14 frames {A absent / at two positions} x {B} x {Render, Refresh} + resize A, for kitty and sixel; the graphics commands of the last frame are compared with what the placement diff requires. distinct = cases/states that passed; block resize history: every 4x4 px image of four quadrants over the pixel alphabet, resized to an earlier box (the full one, or a small one that forces a downscale) and then to each of six boxes, must draw exactly what a fresh image resized once draws; in every other resize case the image object has been resized to the largest box before; geometry change: the terminal's cell pixel size changes while the program runs (4 changes, kitty and sixel): images resized before the change and new ones fit 4 boxes under the new geometry",
 		Exhaustive:  true,
 		Bounds:      map[string]any{"placement_depth": r.Pick(4, 6), "placement_states": states},
 		Assumptions: []string{"un-premultiplied colours are compared with a tolerance of 1 per channel (rounding)", "aspect within one cell: some scale in (0,1] puts both dimensions within one cell of the result"},
